@@ -878,11 +878,28 @@ def check_hash_bucket(ctx: Ctx) -> None:
     ctx.floor("5.12-hash-bucket", 2)
 
 
+def check_tolerance_propagates(ctx: Ctx) -> None:
+    """5.13 setting the tolerance of a cache always runs the post-set hook: a process discipline uses it to push the
+    tolerance down to the caches of its sub-disciplines (the approximation of a Jacobian relies on `tolerance = 0`
+    reaching them even when the process's own tolerance already is 0)."""
+    cls = ctx.index.cls("caches/base_cache.py", "BaseCache")
+    setter = next((st for st in cls.node.body if isinstance(st, ast.FunctionDef) and st.name == "tolerance" and any(isinstance(d, ast.Attribute) and d.attr == "setter" for d in st.decorator_list)), None)
+    ctx.need(setter is not None, "BaseCache.tolerance setter not found")
+    con = cname("caches/base_cache.py", "BaseCache", "tolerance")
+    cfg = cfg_of(setter)
+    hooks = [c for c in walk_body(setter) if isinstance(c, ast.Call) and norm_stmt(c.func) == "self._post_set_tolerance"]
+    stores = [st for st in stmts_of(setter) if isinstance(st, ast.Assign) and norm_stmt(st.targets[0]) == "self._tolerance"]
+    ok = bool(hooks) and bool(stores) and cfg.escape_path(cfg.entry, {cfg.node_of(h) for h in hooks}) is None
+    ok = ok and all(any(cfg.reachable(cfg.node_of(st), cfg.node_of(h)) for h in hooks) for st in stores)
+    ctx.ob("5.13-tolerance-propagates", con, bool(ok), "every normal way out of the tolerance setter passes self._post_set_tolerance(), after the value is stored: an early return (e.g. 'value unchanged') leaves the sub-disciplines' caches with their own tolerance, and perturbed points are served from them", node=(hooks or [setter])[0], stmt="the setter always runs the post-set hook")
+
+
 def run(ctx: Ctx) -> None:
     check_approximation_bypasses_tolerance(ctx)
     check_execute(ctx)
     check_last_accessed(ctx)
     check_hash_bucket(ctx)
+    check_tolerance_propagates(ctx)
     check_hit_untouched(ctx)
     check_copies(ctx)
     check_simple_cache(ctx)
